@@ -927,6 +927,7 @@ fn scenario_resync(sc: &str) -> Result<Violations, String> {
     // sc = "<strategy>|<value idx>|<removed key present: 0/1>"   the primary holds database d (strategy), key a = value, optionally a removed (tombstoned) key g
     use nundb::replication_ops::get_pendding_opps_since;
     let p: Vec<&str> = sc.split('|').collect();
+    if p.len() == 4 && p[0] == "inc" { return scenario_resync_incremental(&p); }
     if p.len() != 3 { return Err("bad resync scenario".into()); }
     let vals = ["v", "two words", "7 up", "x", "ação ✓"];
     let val = vals[p[1].parse::<usize>().map_err(|_| "bad value idx")?];
@@ -960,8 +961,64 @@ fn scenario_resync(sc: &str) -> Result<Violations, String> {
     if p[2] == "1" { chk(&mut v, "C05.sync-skips-removed-keys", jd.get_value("g".into()).map_or(true, |e| e.state == ValueStatus::Deleted)); }
     Ok(v)
 }
+/// incremental catch-up: the primary's operation log holds  create-db d, write d/a, write d/b, [create-db e,] write d/a again, [remove d/g];  the node asks for everything since the first
+/// record.  sc = "inc|<value idx>|<database created between the two writes: 0/1>|<removed key: 0/1>"
+fn scenario_resync_incremental(p: &[&str]) -> Result<Violations, String> {
+    use nundb::replication_ops::get_pendding_opps_since;
+    use nundb::disk_ops::Oplog;
+    let vals = ["v", "two words", "7 up", "x", "ação ✓"];
+    let val = vals[p[1].parse::<usize>().map_err(|_| "bad value idx")?];
+    let dir = std::env::var("NUN_DBS_DIR").map_err(|_| "NUN_DBS_DIR not set")?;
+    let _ = std::fs::remove_dir_all(format!("{}/oplog", dir));
+    let _ = std::fs::remove_file(format!("{}/oplog-nun.op", dir));
+    let primary = mk_dbs();
+    let w = World { dbs: primary.clone() };
+    let (mut c, mut rx) = Client::new_empty_and_receiver();
+    let db_id = |name: &str| -> u64 { primary.map.read().unwrap().get(name).unwrap().metadata.id as u64 };
+    let key_id = |key: &str| -> u64 {
+        let mut km = primary.keys_map.write().unwrap();
+        if let Some(id) = km.get(key) { return *id; }
+        let id = km.len() as u64; km.insert(key.to_string(), id); primary.id_keys_map.write().unwrap().insert(id, key.to_string()); id };
+    let mut v: Violations = vec![];
+    let mut t = 100u64;
+    let since = t;
+    {
+        let mut log = Oplog::get_log_file_append_mode();
+        let mut rec = |db: u64, key: u64, op: ReplicateOpp| { Oplog::write_op_log(&mut log, db, key, &op, t).map_err(|e| e.to_string()).unwrap(); t += 1; };
+        for cmd in ["auth u p", "create-db d tok", "use-db d tok"] { run_cmd(&w, &mut c, &mut rx, cmd); }
+        rec(db_id("d"), key_id("$$token"), ReplicateOpp::CreateDb);
+        run_cmd(&w, &mut c, &mut rx, "set a first"); rec(db_id("d"), key_id("a"), ReplicateOpp::Update);
+        run_cmd(&w, &mut c, &mut rx, "set b bee"); rec(db_id("d"), key_id("b"), ReplicateOpp::Update);
+        if p[2] == "1" { run_cmd(&w, &mut c, &mut rx, "create-db e etok"); rec(db_id("e"), key_id("$$token"), ReplicateOpp::CreateDb); }
+        run_cmd(&w, &mut c, &mut rx, &format!("set a {}", val)); rec(db_id("d"), key_id("a"), ReplicateOpp::Update);
+        if p[3] == "1" { run_cmd(&w, &mut c, &mut rx, "set g gone"); rec(db_id("d"), key_id("g"), ReplicateOpp::Update); run_cmd(&w, &mut c, &mut rx, "remove g"); rec(db_id("d"), key_id("g"), ReplicateOpp::Remove); }
+    }
+    let lines = match catch_unwind(AssertUnwindSafe(|| get_pendding_opps_since(since, &primary))) { Ok(l) => l, Err(_) => { v.push("C10.safety".into()); return Ok(v); } };
+    let pa = { let pm = primary.map.read().unwrap(); pm.get("d").unwrap().get_value("a".into()).unwrap() };
+    // ---- one line per (database, key) of the log, in log order: the database is created before its key is written
+    let n_expected = 3 + if p[2] == "1" { 1 } else { 0 } + if p[3] == "1" { 1 } else { 0 };
+    let pos = |pre: &str| lines.iter().position(|l| l.starts_with(pre));
+    let ordered = match (pos("create-db d "), pos("replicate d a")) { (Some(c0), Some(a0)) => c0 < a0, _ => false };
+    chk(&mut v, "C05.incremental-sync-one-line-per-record", lines.len() == n_expected && ordered);
+    chk(&mut v, "C05.since-nonzero-is-incremental", lines.len() == n_expected && ordered);
+    // ---- each line carries what the primary holds NOW for the database and key the record names
+    let current = lines.iter().any(|l| *l == format!("replicate d a {}", pa.value) || *l == format!("replicate d a {} {}", pa.version, pa.value));
+    chk(&mut v, "C05.incremental-sync-line-is-current", current);
+    if p[3] == "1" { chk(&mut v, "C05.incremental-sync-line-is-current", lines.iter().any(|l| l == "replicate-remove d g")); }
+    // ---- the joining node (it already has d from before it went away: here it simply replays the lines on an empty node)
+    let joiner = mk_dbs();
+    let wj = World { dbs: joiner.clone() };
+    let (mut cj, mut rxj) = Client::new_empty_and_receiver();
+    run_cmd(&wj, &mut cj, &mut rxj, "auth u p");
+    for l in &lines { if catch_unwind(AssertUnwindSafe(|| run_cmd(&wj, &mut cj, &mut rxj, l))).is_err() { v.push("C10.safety".into()); return Ok(v); } }
+    let jm = joiner.map.read().unwrap();
+    let ja = jm.get("d").and_then(|d| d.get_value("a".into()));
+    chk(&mut v, "C05.incremental-sync-line-carries-version", ja.as_ref().map_or(false, |e| e.value == pa.value && e.version == pa.version && e.state != ValueStatus::Deleted));
+    Ok(v)
+}
 fn all_resync_scenarios() -> Vec<String> {
     let mut out = vec![];
+    for vi in 0..5 { for e in ["0", "1"] { for g in ["0", "1"] { out.push(format!("inc|{}|{}|{}", vi, e, g)); } } }
     for st in ["none", "newer", "arbiter"] { for vi in 0..5 { for g in ["0", "1"] { out.push(format!("{}|{}|{}", st, vi, g)); } } }
     out
 }
